@@ -1,5 +1,6 @@
 import QuantemModel.Core.Proto
 import QuantemModel.Model.Origin
+import QuantemModel.Model.OriginState
 open Lean QuantemModel QuantemModel.Proto QuantemModel.Origin
 
 namespace DrvC18
@@ -29,6 +30,126 @@ def gridToJson (g : List (List Rat)) : Json := Json.arr (g.map (fun r => Json.ar
 def pieces {α : Type} (k : Nat) (l : List α) : List (List α) := Batcher.chunks k l
 
 def toPatterns (h w : Nat) (flat : List Rat) : List (Pattern Rat) := (pieces (h * w) flat).map (pieces w)
+
+
+/-! ### histories on the two objects (Model/OriginState.lean), at the exact carrier -/
+
+def rejToJson : Option Rejected → Json
+  | none => Json.null
+  | some .valueError => Json.str "ValueError"
+  | some .runtimeError => Json.str "RuntimeError"
+  | some .notImplemented => Json.str "NotImplementedError"
+
+def optJson {α : Type} (f : α → Json) : Option α → Json
+  | none => Json.null
+  | some a => f a
+
+def rawOfJson (j : Json) : Except String (RawArray Rat) := do
+  let real ← boolField j "real"
+  let vals ← ratList (← field j "vals")
+  pure ⟨real, vals⟩
+
+def tripleOfJson (j : Json) : Except String (Rat × Rat × Rat) := do
+  match ← ratList j with
+  | [a, b, c] => pure (a, b, c)
+  | _ => throw "triple"
+
+def nrmOfJson (j : Json) : Except String ((Rat × Rat × Rat) × (Rat × Rat × Rat)) := do
+  match j.getObjVal? "nrm" with
+  | .ok (.arr #[a, b]) => pure (← tripleOfJson a, ← tripleOfJson b)
+  | _ => pure ((0, 0, 1), (0, 0, 1))
+
+def pairOfJson (j : Json) : Except String (Rat × Rat) := do
+  match ← ratList j with
+  | [a, b] => pure (a, b)
+  | _ => throw "pair"
+
+def scanOfJson (j : Json) : Except String (Option (Nat × Nat)) :=
+  match j.getObjVal? "scan" with
+  | .ok (.arr #[a, b]) => do pure (some (← a.getNat?, ← b.getNat?))
+  | _ => pure none
+
+def methodOfStr : String → FitMethod
+  | "plane" => .plane
+  | "constant" => .constant
+  | _ => .other
+
+def omOpOfJson (j : Json) : Except String (OmOp Rat) := do
+  match ← strField j "k" with
+  | "calc" => pure (.measure (← natField j "b"))
+  | "set_measured" => pure (.setMeasured (← rawOfJson j))
+  | "set_fitted" => pure (.setFitted (← rawOfJson j))
+  | "fit" =>
+      let pos : Positions Rat ← match j.getObjVal? "pos" with
+        | .ok .null => pure .inferred
+        | .ok p => do pure (.explicit (← rawOfJson p))
+        | .error _ => pure .inferred
+      pure (.fit pos (methodOfStr (← strField j "method")) (← nrmOfJson j))
+  | "shift" => pure (.shift (← pairOfJson (← field j "coord")) (← natField j "b"))
+  | "set_tensor" =>
+      let h ← natField j "h"
+      let w ← natField j "w"
+      if h == 0 || w == 0 then throw "degenerate shape" else
+      pure (.setTensor (← scanOfJson j) h w (toPatterns h w (← ratList (← field j "data"))))
+  | "forward" =>
+      pure (.forward (← natField j "b") (methodOfStr (← strField j "method")) (← nrmOfJson j) (← pairOfJson (← field j "coord")))
+  | k => throw s!"unknown om op {k}"
+
+def pairsToJson (l : List (Rat × Rat)) : Json := Json.arr (l.map pairToJson).toArray
+
+def omStateJson (r : Option Rejected) (s : OmState Rat) : Json := Json.mkObj [
+  ("r", rejToJson r),
+  ("n", Json.num (JsonNumber.fromNat s.numDps)),
+  ("measured", optJson pairsToJson s.measured),
+  ("fitted", optJson pairsToJson s.fitted),
+  ("shifted", optJson (fun sh => Json.arr (sh.map (fun p => Json.arr (p.flatten.map ratToJson).toArray)).toArray) s.shifted)]
+
+def dsFitOfStr : String → DsFit
+  | "none" => .none
+  | "no_shift" => .noShift
+  | "constant" => .constant
+  | _ => .other
+
+def to4d (sc h w : Nat) (flat : List Rat) : List (List (Pattern Rat)) := pieces sc (toPatterns h w flat)
+
+def gridsOfJson (j : Json) : Except String (Grid Rat × Grid Rat) := do
+  let nc ← natField j "nc"
+  if nc == 0 then throw "nc=0" else
+  pure (pieces nc (← ratList (← field j "r")), pieces nc (← ratList (← field j "c")))
+
+def dsOpOfJson (sc h w : Nat) (j : Json) : Except String (DsOp Rat) := do
+  let maskOf (j : Json) : Except String (Option (Pattern Rat)) :=
+    match j.getObjVal? "mask" with
+    | .ok .null => pure none
+    | .ok m => do
+        let mw ← natField m "w"
+        if mw == 0 then throw "mask w=0" else pure (some (pieces mw (← ratList (← field m "vals"))))
+    | .error _ => pure none
+  match ← strField j "k" with
+  | "setcom" =>
+      let src : DsSrc Rat ← match j.getObjVal? "src" with
+        | .ok .null => pure .held
+        | .ok e => do
+            let eh ← natField e "h"
+            let ew ← natField e "w"
+            let esc ← natField e "sc"
+            if eh == 0 || ew == 0 || esc == 0 then throw "degenerate external" else
+            pure (.external eh ew (to4d esc eh ew (← ratList (← field e "data"))))
+        | .error _ => pure .held
+      pure (.setCom src (← maskOf j) (dsFitOfStr (← strField j "fit")) (← boolField j "vec"))
+  | "preprocess" => pure (.preprocess (dsFitOfStr (← strField j "fit")) (← boolField j "vec"))
+  | "edit" => pure (.edit (← natField j "a") (← natField j "b") (pieces w (← ratList (← field j "pat"))))
+  | "assign" => pure (.assign (to4d sc h w (← ratList (← field j "data"))))
+  | "set_com_measured" => pure (.setComMeasured (← gridsOfJson j))
+  | "set_com_fit" => pure (.setComFit (← gridsOfJson j))
+  | k => throw s!"unknown ds op {k}"
+
+def gridsToJson (g : Grid Rat × Grid Rat) : Json := Json.arr #[gridToJson g.1, gridToJson g.2]
+
+def dsStateJson (r : Option Rejected) (s : DsState Rat) : Json := Json.mkObj [
+  ("r", rejToJson r),
+  ("com_measured", optJson gridsToJson s.comMeasured),
+  ("com_fit", optJson gridsToJson s.comFit)]
 
 def step (st : Unit) (j : Json) : Unit × Json :=
   match (do
@@ -127,6 +248,30 @@ def step (st : Unit) (j : Json) : Unit × Json :=
             pure ((), okJson (Json.arr (out.map (fun o => match o with
               | some p => Json.arr (p.flatten.map ratToJson).toArray | none => Json.null)).toArray))
         | _ => throw "coord"
+    | "om_history" =>
+        let h ← natField j "h"
+        let w ← natField j "w"
+        if h == 0 || w == 0 then throw "degenerate shape" else
+        let t3 := toPatterns h w (← ratList (← field j "data"))
+        let ops ← (← arrField j "ops").toList.mapM omOpOfJson
+        let s0 : OmState Rat := OmState.init (← scanOfJson j) h w t3
+        let (_, outs) := ops.foldl (fun (acc : OmState Rat × List Json) op =>
+            let (s', r) := omStep acc.1 op
+            (s', omStateJson r s' :: acc.2)) (s0, [])
+        pure ((), okJson (Json.arr outs.reverse.toArray))
+    | "ds_history" =>
+        let sr ← natField j "sr"
+        let sc ← natField j "sc"
+        let h ← natField j "h"
+        let w ← natField j "w"
+        if h == 0 || w == 0 || sc == 0 then throw "degenerate shape" else
+        let ops ← (← arrField j "ops").toList.mapM (dsOpOfJson sc h w)
+        let s0 : DsState Rat := { gpts := (sr, sc), roi := (h, w), held := to4d sc h w (← ratList (← field j "data")),
+                                  comMeasured := none, comFit := none }
+        let (_, outs) := ops.foldl (fun (acc : DsState Rat × List Json) op =>
+            let (s', r) := dsStep acc.1 op
+            (s', dsStateJson r s' :: acc.2)) (s0, [])
+        pure ((), okJson (Json.arr outs.reverse.toArray))
     | _ => throw s!"unknown op {op}" : Except String (Unit × Json)) with
   | .ok r => r
   | .error e => (st, errJson s!"driver:{e}")
